@@ -17,6 +17,28 @@ history:   spec/DebFileCache.tla -- the query part as a history over TWO open pa
            returned dictionary) and Reopen (path rewritten and opened again); HistExact: every answer
            in every history = the stateless answer of DebFile.tla.  Negative controls:
            CacheKeyedByNameOnly, ResultsAliased, ContentCacheByFile (each violates HistExact).
+           Round 6: ReadBegin / ReadEnd (ONE get_file() object read in two steps with any other steps of either
+           package in between), ArCall (DebFile is an ArFile: getmember, [], getmembers, members, getnames, iteration,
+           extractfile only look at the member table -- UNCHANGED on every part and on the half-read file) and Fault
+           (the file object the CALLER gave to DebFile(fileobj=) raises once during a query: the caller's exception or
+           DebError comes out, nothing changes; afterwards the ordinary history carries on).  Negative controls:
+           GetMemberRewinds (getmember / [] rewinds the member it returns: ReadEnd garbage), LazyScanDiesOnFault
+           (has_file walks the tarball lazily with one persistent iterator that a fault finalises).
+fault domain (FaultDomOf of DebFileCache.tla, printed as FDOM line, checked by TLC in the sessions): a fault is specified
+           to leave no trace when the part's tarball has been opened by an earlier successful query AND the part is
+           stored uncompressed (tarfile reads header by header through ArMember, which seeks before every read).
+           Everything else is UNSPECIFIED -- executed, the object is opened again before anything else is asked of it,
+           a tainted object's answers are never verdicts -- because the standard library is not restartable there
+           (found on the unchanged tree while building this, reported to the lead):
+             * first query of a part: tarfile.open(mode='r:*') turns an OSError into ReadError (-> DebError, fine) but
+               lets any other exception escape without seeking back: DebPart.tgz() then opens the tarball at the
+               member's current position -- for gz / bz2 parts files vanish from has_file();
+             * gz part, tarball open: gzip re-reads its header after a backward seek; a fault after the two magic bytes
+               leaves _new_member set: every later read raises BadGzipFile("Not a gzipped file (b'\\x08\\x00')");
+             * xz / lzma / bz2 part larger than the read-ahead: the BufferedReader inside LZMAFile / BZ2File keeps a
+               stale position when a forward seek (read and discard) fails half way; the NEXT get_content silently
+               returns bytes of the wrong offset (313 KB data.tar.lzma, OSError at the 8th read of get_content).
+           Early EOF / short reads of the caller's object are indistinguishable from a truncated package: not generated.
 payload:   spec/DebPayload.tla -- what "the same control fields" / "the same md5sum map" mean for the TEXT of the
            control and md5sums files, at character-class level (x non-space, b SPACE/TAB, v VT FF, s FS GS RS NEL
            LS PS, u US NBSP U+1680 U+2003.., n LF, r CR): statement level = the packed value / name and its
@@ -66,6 +88,13 @@ then has_file then get_file().read() on the same file ...):
   DebFile(fileobj=open(path, 'rb'))              all legs ("realfile": a real buffered file object)
   DebFile(fileobj=<other kinds>)                 all legs (c07_obs.HOWS_KINDS: unbuffered, shortread, gzipfile, bz2file,
                                                  lzmafile, spooled-mem, spooled-disk; ~1 in 6 of the shared-object cases)
+  DebFile(fileobj=<object that can fail>)        all legs unarmed ("flaky": BytesIO subclass, "flaky-raw": BufferedReader over
+                                                 a raw stream; ~30 % of the shared-object cases); ARMED in the history legs
+                                                 (HTAB replay, sessions): the k-th read (k = 1..30) raises OSError / ValueError /
+                                                 KeyError / a private exception class once, during has_file, get_content, the rest
+                                                 of a half-read file, scripts, md5sums, debcontrol -- early in the life of the
+                                                 object (first membership query, fault during the second) and in steady state;
+                                                 then has_file / get_content / scripts / md5sums on the same part carry on
   DebFile(filename=path)                         all legs ("filename")
   DebFile(path, 'r')  (positional)               all legs ("filename-pos")
   user subclass of DebFile(filename=, mode='r')  all legs ("subclass")
@@ -78,6 +107,9 @@ then has_file then get_file().read() on the same file ...):
   iter(part) / list(part)                        replay (listing check: './name' listed <=> has_file per TLC; = tgz().getnames())
   get_content(name)                              access path 0;  part[name] / __getitem__: paths 2 and 9
   get_file(name).read()                          paths 1, 3 (chunked, other queries in between), 4 (two file objects)
+  get_file(name).read(k) ... .read()             history legs: ReadBegin (k = 0..8193), any other steps of both packages --
+                                                 queries, ArFile-level calls naming the very member, faults, re-open of the
+                                                 OTHER package --, ReadEnd; big compressed parts in every third history
   get_content(name, encoding='latin-1')          path 6 (text result, keyword)        } only for content without '\r'
   get_file(name, 'utf-8', 'surrogateescape')     path 7 (text result, positional)     } (TextIOWrapper translates
   get_content(name, 'ascii', 'surrogateescape')  path 8 (text result, errors=)        }  newlines); mapped back to bytes
@@ -89,7 +121,12 @@ then has_file then get_file().read() on the same file ...):
   deprecated camelCase aliases                   none in this tree (debfile.py has no function_deprecated_by); c07_obs.alias_of picks up
                                                  hasFile / getContent automatically if they appear; surface_audit() reports any
                                                  public attribute of DebPart / DebData / DebControl / DebFile missing from this table as drift
-  ArFile API inherited by DebFile (getnames, getmember, members, extractfile, iteration, [])   property C06
+  ArFile API inherited by DebFile (getnames, getmember, getmembers, members, extractfile, iteration, []): WHAT they
+                                                 return is property C06; that calling them leaves the parts alone is checked
+                                                 here: ArCall steps of the history legs and c07_obs.ar_glance() between the
+                                                 chunks of every chunked / two-object read (all legs).  Reading THROUGH a
+                                                 member obtained this way moves the position the part's decompressor relies
+                                                 on: the caller's own interference, out of domain
   copy / pickle of DebFile objects               out of domain: undocumented, the objects own open files
 binding:   (a) every CASE line (member list, expected Ok / DebError) is built as a real .deb (own ar
                writer, tarfile './name' members, gzip/bz2/lzma incl. FORMAT_ALONE) and opened by
@@ -118,8 +155,8 @@ import c07_payload as P
 
 MANIFEST = dict(
     technique="TLA+ specs (DebPayload: character-class model of the control / md5sums text, statement level vs. transcription of Deb822(bytes) and md5sums(); DebFile: statement-level WellFormed/packed maps + transcription of DebFile.__init__/DebPart; DebFileCache: query histories over two open packages with explicit caches) model-checked by TLC over all member-name subsets, bounded member orders and all small contents; every configuration built as a real .deb and opened by DebFile; recorded random packages validated by TLC (TraceDebFile)",
-    text="TLC enumerates every subset of a 15-name member universe (debian-binary, control.tar and data.tar with none/gz/bz2/xz/lzma, four foreign names) and every injective member sequence up to length 3 (quick) / 4, and 5 over a 9-name sub-universe (thorough) and checks accept <=> has debian-binary and exactly one control and one data candidate, independence of member order, equality of the answers for 'n', './n', '/n' and that every query returns the packed blob, for every subset of the five maintainer scripts and every small data/md5sums map. Each CASE line is built as a real package and DebFile must answer Ok / DebError as TLC says (any other exception type is a violation); each PROBE line is concretised (names with spaces, non-ASCII, nested directories; binary, empty, NUL contents) and the complete table of has_file / in / get_content / get_file / [] answers, scripts(), md5sums(), debcontrol() is compared; random packages with random orders, foreign members and defects are recorded and validated by TLC. A history layer (DebFileCache) models two packages open at once with the caches an implementation might keep, caller-side mutation of returned dictionaries and rewrite + re-open of a path, and TLC checks that every answer in every history equals the stateless one; accordingly all queries are issued repeatedly, shuffled and interleaved between parts, spellings, access paths and two simultaneously open packages with equal file names, in replay and in recorded sessions. A payload layer (DebPayload) models the text of the control and md5sums files at character-class level (blank, VT/FF, FS..RS/NEL/LS/PS, NBSP.., LF, CR, non-space): TLC checks that Deb822(bytes) and md5sums() in both flavours return the packed value / file name for every shape in the domain (look-alike line boundaries followed by a blank inside control values; white space of every kind inside and at the end of file names) and prints the shapes; all concretisations draw file names and control values from them, and the payload leg runs every class of shape in the model's own frame. Line ends of the control and md5sums files and ar member starts are aligned to powers of two in a share of the cases, and packages are opened through eleven kinds of file object.",
-    note="Payload fidelity through tarfile/compressors is sampled (seeded), structure is enumerated. Member lists whose verdict hinges on zst support (not in PART_EXTS of this tree) are unspecified: executed, either verdict accepted. Which exception reports an absent file in get_content (KeyError today) and the key type of md5sums() are diagnostic. Control values with VT FF FS GS RS NEL LS PS not followed by white space (DESIGN D1: debcontrol() raises ValueError) and md5sums entries of names that start with white space are unspecified: run, compared with the code-level model, never a verdict. Trusted: TLC, tarfile/gzip/bz2/lzma/hashlib, the ar writer, dpkg-deb and ar where present.",
+    text="TLC enumerates every subset of a 15-name member universe (debian-binary, control.tar and data.tar with none/gz/bz2/xz/lzma, four foreign names) and every injective member sequence up to length 3 (quick) / 4, and 5 over a 9-name sub-universe (thorough) and checks accept <=> has debian-binary and exactly one control and one data candidate, independence of member order, equality of the answers for 'n', './n', '/n' and that every query returns the packed blob, for every subset of the five maintainer scripts and every small data/md5sums map. Each CASE line is built as a real package and DebFile must answer Ok / DebError as TLC says (any other exception type is a violation); each PROBE line is concretised (names with spaces, non-ASCII, nested directories; binary, empty, NUL contents) and the complete table of has_file / in / get_content / get_file / [] answers, scripts(), md5sums(), debcontrol() is compared; random packages with random orders, foreign members and defects are recorded and validated by TLC. A history layer (DebFileCache) models two packages open at once with the caches an implementation might keep, caller-side mutation of returned dictionaries and rewrite + re-open of a path, and TLC checks that every answer in every history equals the stateless one; accordingly all queries are issued repeatedly, shuffled and interleaved between parts, spellings, access paths and two simultaneously open packages with equal file names, in replay and in recorded sessions. A payload layer (DebPayload) models the text of the control and md5sums files at character-class level (blank, VT/FF, FS..RS/NEL/LS/PS, NBSP.., LF, CR, non-space): TLC checks that Deb822(bytes) and md5sums() in both flavours return the packed value / file name for every shape in the domain (look-alike line boundaries followed by a blank inside control values; white space of every kind inside and at the end of file names) and prints the shapes; all concretisations draw file names and control values from them, and the payload leg runs every class of shape in the model's own frame. Line ends of the control and md5sums files and ar member starts are aligned to powers of two in a share of the cases, and packages are opened through thirteen kinds of file object. The history layer also reads files in two steps with arbitrary other steps in between, calls the ArFile interface DebFile inherits (getmember, [], getmembers, getnames, iteration: the model says they leave every part alone) and lets the caller-supplied file object raise once during a query (OSError, ValueError, KeyError, a private class, at the k-th read): the caller's exception or DebError must come out and every later answer must be the stateless one.",
+    note="Payload fidelity through tarfile/compressors is sampled (seeded), structure is enumerated. Member lists whose verdict hinges on zst support (not in PART_EXTS of this tree) are unspecified: executed, either verdict accepted. Which exception reports an absent file in get_content (KeyError today) and the key type of md5sums() are diagnostic. Control values with VT FF FS GS RS NEL LS PS not followed by white space (DESIGN D1: debcontrol() raises ValueError) and md5sums entries of names that start with white space are unspecified: run, compared with the code-level model, never a verdict. A fault of the caller's file object is specified to leave no trace only for an UNCOMPRESSED part whose tarball an earlier query has opened (FaultDomOf, decided by TLC); elsewhere tarfile.open / gzip / the BufferedReader inside LZMAFile and BZ2File are themselves not restartable: those faults are executed, the object is opened again, nothing it says in between is a verdict; early EOF / short reads are not generated. Trusted: TLC, tarfile/gzip/bz2/lzma/hashlib, the ar writer, dpkg-deb and ar where present.",
     design="5 (C07)")
 
 SPELLINGS = ["plain", "dot", "slash"]
@@ -128,7 +165,7 @@ PARTS = ["control", "data"]
 
 from c07_obs import (classify, open_deb, drop, finish, pick_how, obs_has, obs_get, obs_md5, obs_scripts,  # noqa: E402
                      obs_ctl, obs_listing, mutate_result, take_how_count, N_ACCESS, MD5_WAYS, HOWS_SHARED, HOWS_NAMED,
-                     HOWS_KINDS)
+                     HOWS_KINDS, HOWS_FLAKY, ar_glance)
 
 
 # ------------------------------------------------------------------ spec -> code
@@ -200,6 +237,7 @@ def check_content(deb, probe, conc, rng, level, drift=None):
             deb.control.get_content("control")
         except Exception:
             pass
+        ar_glance(deb)      # DebFile is an ArFile: getmember / [] / getmembers / getnames / iteration only look
     for st in steps:
         if st[0] == "mutate":
             if keep:
@@ -455,6 +493,7 @@ def record_trace(rng, work, given=None):
                 deb.control.get_content("control")
             except Exception:
                 pass
+            ar_glance(deb)
         for cl in (calls or []) if st == "ok" else []:
             op = cl[0]
             if op == "mutate":          # not an event: the caller's own business
@@ -582,7 +621,8 @@ def validate(ctx, traces, with_controls=True):
 NEGATIVE = [("MC_DebFile_neg_first.cfg", "AcceptIffWellFormed"), ("MC_DebFile_neg_slash.cfg", "SpellingInvariant"),
             ("MC_DebFile_neg_info.cfg", "AcceptIffWellFormed")]
 NEGATIVE_HIST = [("MC_DebFileCache_neg_name.cfg", "HistExact"), ("MC_DebFileCache_neg_alias.cfg", "HistExact"),
-                 ("MC_DebFileCache_neg_content.cfg", "HistExact")]
+                 ("MC_DebFileCache_neg_content.cfg", "HistExact"), ("MC_DebFileCache_neg_rewind.cfg", "HistExact"),
+                 ("MC_DebFileCache_neg_scan.cfg", "HistExact")]
 NEGATIVE_PAYLOAD = [("MC_DebPayload_neg_split.cfg", "CtlExact"), ("MC_DebPayload_neg_strip.cfg", "Md5Exact"),
                     ("MC_DebPayload_neg_lines.cfg", "Md5Exact")]
 C1 = ["-XX:TieredStopAtLevel=1"]
@@ -839,6 +879,8 @@ def run(ctx):
         "member lists whose verdict depends on zst being a recognised extension are unspecified (this tree: not in PART_EXTS)",
         "payload (names, bytes, control values) is sampled with the run's seed; the exception type for get_content of an absent file and the key type of md5sums() are diagnostic",
         "trusted: TLC, tarfile/gzip/bz2/lzma/hashlib, the ar writer, dpkg-deb / ar (thorough)",
+        "faults of the caller-supplied file object (one exception at the k-th read): verdicts only for uncompressed parts whose tarball is already open (DebFileCache.tla: FaultDomOf); unopened or compressed parts are unspecified (the standard library's tarfile.open / gzip / BufferedReader-in-LZMAFile are not restartable) -- executed, then the object is opened again; early EOF / short reads are not generated (a truncated package)",
+        "ArFile-level calls on a DebFile only inspect the member table (name, size); reading through a member obtained that way is the caller's own interference with the part: out of domain",
     ]
     if not B.UTF8_FS:
         ctx.assumptions.append("file system encoding is not UTF-8: generated file names restricted to ASCII")
@@ -878,7 +920,7 @@ def _run(ctx, quick, rng, W, nproc, procs, pool, timeout, timing, lap):
         jobs["orders_mid"] = tlc("MC_DebFile_orders_mid.cfg")
         jobs["matrix"] = tlc("MC_DebFile_matrix.cfg")
         jobs["nodecomp"] = tlc("MC_DebFile_nodecomp.cfg", 2, True)
-    jobs["hist"] = tlc("MC_DebFileCache.cfg", 2, True, "DebFileCache")
+    jobs["hist"] = tlc("MC_DebFileCache.cfg", 3, True, "DebFileCache")
     # the spec-level negative controls (six more JVMs) run in the thorough tier only
     negs = [] if quick else [(cfg, inv, tlc(cfg, 2, True)) for cfg, inv in NEGATIVE]
     negs += [] if quick else [(cfg, inv, tlc(cfg, 2, True, "DebFileCache")) for cfg, inv in NEGATIVE_HIST]
@@ -933,16 +975,6 @@ def _run(ctx, quick, rng, W, nproc, procs, pool, timeout, timing, lap):
 
     pending = []        # (label, async result)
     n_pkg = 0
-
-    # ---- spec -> code (0): two packages open at once, interleaved / repeated queries, mutation, re-open
-    hlines, fdoms = result("hist", ("HTAB", "FDOM"))
-    lap("wait_tlc")
-    if not fdoms or set(fdoms[0]) != {"dom", "exc"}:
-        raise core.MachineryError("no FDOM line (fault domain) from the history configuration")
-    for ch in chunks(hseeds, nproc):
-        pending.append(("hist", procs.apply_async(_work_hist, ((ch, hlines, 60 if quick else 90, ctx.work, fdoms[0]),))))
-    ctx.extra["fault_domain"] = fdoms[0]
-    ctx.extra["history_table_lines"] = len(hlines)
 
     # ---- the contents TLC enumerated, with the complete table of expected answers
     probes = sorted(result("content", "PROBE"), key=lambda c: json.dumps(c["pkg"], sort_keys=True))
@@ -1000,6 +1032,17 @@ def _run(ctx, quick, rng, W, nproc, procs, pool, timeout, timing, lap):
     for ch in chunks(tasks, nproc * 2):
         pending.append(("content", procs.apply_async(_work_content, ((ch, ctx.work, quick),))))
     lap("dispatch_content")
+
+    # ---- spec -> code (0): two packages open at once, interleaved / repeated queries, mutation, re-open,
+    #      partial reads, ArFile-level calls, faults of the caller's file object (its TLC run is the longest: awaited last)
+    hlines, fdoms = result("hist", ("HTAB", "FDOM"))
+    lap("wait_tlc")
+    if not fdoms or set(fdoms[0]) != {"dom", "exc"}:
+        raise core.MachineryError("no FDOM line (fault domain) from the history configuration")
+    for ch in chunks(hseeds, nproc):
+        pending.append(("hist", procs.apply_async(_work_hist, ((ch, hlines, 60 if quick else 90, ctx.work, fdoms[0]),))))
+    ctx.extra["fault_domain"] = fdoms[0]
+    ctx.extra["history_table_lines"] = len({json.dumps(t, sort_keys=True) for t in hlines})
 
     # ---- thorough: the 5 x 5 matrix x contents, exactly as TLC printed it
     if not quick:
@@ -1155,7 +1198,12 @@ def _run(ctx, quick, rng, W, nproc, procs, pool, timeout, timing, lap):
     ctx.extra["file_object_kinds"] = {k[4:]: v for k, v in sorted(stats.items()) if k.startswith("how:")}
     ctx.extra["aligned_cases"] = {k[8:]: v for k, v in sorted(stats.items()) if k.startswith("aligned:")}
     ctx.extra["payload_drawn"] = {k: v for k, v in sorted(stats.items()) if k.startswith(("value:", "name:"))}
-    missing = [k for k in HOWS_SHARED + HOWS_NAMED + HOWS_KINDS if not stats.get("how:" + k)]
+    ctx.extra["history_steps_per_kind"] = {k[5:]: v for k, v in sorted(stats.items()) if k.startswith("step:")}
+    ctx.extra["session_events_per_kind"] = {k[6:]: v for k, v in sorted(stats.items()) if k.startswith("event:")}
+    if not stats.get("step:fault-in-domain") or not stats.get("step:ar") or not stats.get("step:re"):
+        ctx.drift("history leg without %s steps in this run" % "/".join(
+            k for k in ("fault-in-domain", "ar", "re") if not stats.get("step:" + k)))
+    missing = [k for k in HOWS_SHARED + HOWS_NAMED + HOWS_KINDS + HOWS_FLAKY if not stats.get("how:" + k)]
     if missing:
         ctx.drift("file-object kinds not drawn in this run: %s" % ", ".join(missing))
     ctx.traces += n_pkg + len(traces) + len(sessions)
